@@ -12,14 +12,15 @@ LEVEL = "exploration"
 RULE = (
     "case = block of runs; a run = (convergence precision 0-12 or None, batch size 1-3, scripted loss sequence through a model "
     "with N=1, D=1, Minkowski p=1 and zero real data so that loss == |scripted value| exactly, first converging batch at "
-    "position 0..n-1 or never, verbose on/off, saving folder or not, 1-3 successive calibrate(n) calls). Oracle: the number of "
+    "position 0..n-1 or never; a fifth of the runs with a signed user loss and negative values, 15% on a three-point grid, the "
+    "precision given as int, numpy.int64 or numpy.int32; verbose on/off, saving folder or not, 1-3 successive calibrate(n) calls). Oracle: the number of "
     "batches run by each call equals the count up to and including the first batch whose running minimum rounds to zero at p "
     "decimals (else n); the triggering batch is in the history and in the return value; a verbose twin runs the same batches; "
-    "with a folder the restored checkpoint equals the live calibrator. Non-trivial = convergence strictly inside the "
+    "with a folder the restored checkpoint equals the live calibrator and a further calibrate(2) on it follows the same rule. Non-trivial = convergence strictly inside the "
     "requested batches; distinct by (sequence class, p, verbose, folder, calls)."
 )
 ASSUMPTIONS = ["scripted values are kept a factor 1.02 away from the 0.5*10^-p rounding boundary; exact boundary values are not generated"]
-REQUIRED_COUNTERS = {"runs": 200, "converged_inside": 60, "never_converged": 30, "no_precision": 10, "verbose_twins": 60, "folder_restores": 40,
+REQUIRED_COUNTERS = {"runs_with_signed_loss": 40, "runs_on_a_three_point_grid": 30, "numpy_integer_precision": 30, "continued_after_restore": 40, "runs": 200, "converged_inside": 60, "never_converged": 30, "no_precision": 10, "verbose_twins": 60, "folder_restores": 40,
                      "later_calls_after_convergence": 20}
 SHARDS = {"quick": 8, "thorough": 16}
 
@@ -52,6 +53,9 @@ def one_run(rng, ctx, out):
 
     c = out["counters"]
     p = None if rng.random() < 0.08 else int(rng.integers(0, 13))
+    ptype = str(rng.choice(["int", "int", "int", "np.int64", "np.int32"]))      # precisions often come out of numpy arrays of settings
+    signed = bool(rng.random() < 0.2)     # a loss that can be negative (log-likelihood style): a negative best loss that does not round to 0 never stops the run
+    tiny_grid = bool(rng.random() < 0.15)   # fewer grid points than rows: an exhausted grid is no reason to stop
     bs = int(rng.integers(1, 4))
     calls = [int(x) for x in rng.integers(1, 7, size=int(rng.integers(1, 4)))]
     total = sum(calls)
@@ -71,18 +75,34 @@ def one_run(rng, ctx, out):
         for k in range(at + 1, total):  # later batches may or may not converge on their own; the running minimum decides
             if rng.random() < 0.3:
                 vals[k][0] = float(unit * rng.uniform(0.0, 0.48))
+    if signed:
+        for k in range(total):
+            if rng.random() < 0.25 and (at is None or k != at):
+                vals[k][int(rng.integers(bs))] = -float(unit * rng.uniform(0.52, 50.0))
     exp = expected_batches(vals, p, calls)
     use_folder = rng.random() < 0.5
     seed = int(rng.integers(2**31))
-    wit = {"precision": p, "batch_size": bs, "calls": calls, "scripted_losses": vals, "expected_batches_per_call": exp, "folder": use_folder}
+    wit = {"precision": p, "precision_type": ptype if p is not None else None, "batch_size": bs, "calls": calls, "scripted_losses": vals, "expected_batches_per_call": exp,
+           "folder": use_folder, "signed_loss": signed, "tiny_grid": tiny_grid}
+    if signed:
+        c["runs_with_signed_loss"] = c.get("runs_with_signed_loss", 0) + 1
+    if tiny_grid:
+        c["runs_on_a_three_point_grid"] = c.get("runs_on_a_three_point_grid", 0) + 1
+    if p is not None and ptype != "int" and not use_folder:
+        c["numpy_integer_precision"] = c.get("numpy_integer_precision", 0) + 1
+    from vlib.userloss import RawValueLoss
+
+    if use_folder:
+        ptype = "int"   # a numpy integer precision cannot be written to calibration_params.json (TypeError at the first checkpoint): outside "precisions 0-12", noted in DESIGN.md
+    pp = p if (p is None or ptype == "int") else (np.int64(p) if ptype == "np.int64" else np.int32(p))
 
     def run(verbose, folder):
         flat = [v for b in vals for v in b]
         model = M.Scripted(flat + [unit * 9.0] * 64)
         smp = [RandomUniformSampler(bs, max_deduplication_passes=0), HaltonSampler(bs, max_deduplication_passes=0)]
         with quiet():
-            cal = Calibrator(loss_function=MinkowskiLoss(p=1), real_data=np.zeros((1, 1)), model=model, parameters_bounds=[[0.0], [1.0]],
-                             parameters_precision=[0.0001], ensemble_size=1, samplers=smp, convergence_precision=p, verbose=verbose,
+            cal = Calibrator(loss_function=RawValueLoss() if signed else MinkowskiLoss(p=1), real_data=np.zeros((1, 1)), model=model, parameters_bounds=[[0.0], [1.0]],
+                             parameters_precision=[0.5 if tiny_grid else 0.0001], ensemble_size=1, samplers=smp, convergence_precision=pp, verbose=verbose,
                              saving_folder=folder, random_state=seed, n_jobs=1)
         ran, rets = [], []
         for n in calls:
@@ -120,7 +140,7 @@ def one_run(rng, ctx, out):
         out["violations"].append({"msg": f"history has {len(cal.losses_samp)} rows after {sum(ran)} batches of {bs}", "witness": dict(wit, verbose=verbose)})
     else:
         flat = np.array([v for b in vals for v in b][:rows])
-        if not np.array_equal(np.abs(flat), cal.losses_samp):
+        if not np.array_equal(flat if signed else np.abs(flat), cal.losses_samp):
             out["violations"].append({"msg": "recorded losses are not the scripted ones (the triggering batch must be part of the history)", "witness": dict(wit, verbose=verbose)})
         if len(rets[-1][1]) != rows or not np.array_equal(np.sort(cal.losses_samp), rets[-1][1]):
             out["violations"].append({"msg": "the value returned by the last calibrate() is not the sorted recorded history", "witness": dict(wit, verbose=verbose)})
@@ -143,6 +163,19 @@ def one_run(rng, ctx, out):
             if d:
                 out["violations"].append({"msg": f"checkpoint after calibrate() (precision {p}, verbose={verbose}, ran {ran}) does not hold the returned state: " + "; ".join(d[:3]),
                                           "witness": dict(wit, verbose=verbose)})
+            else:
+                # the restored calibrator goes on: one more call runs at least one batch and applies the same rule
+                b0 = rest.current_batch_index
+                rest.saving_folder = None
+                with quiet():
+                    rest.calibrate(2)
+                flat_all = [v for b in vals for v in b] + [unit * 9.0] * 64
+                best = min(flat_all[: (b0 + 1) * bs]) if signed else min(abs(v) for v in flat_all[: (b0 + 1) * bs])
+                want = 1 if (p is not None and np.round(best, p) == 0) else 2
+                c["continued_after_restore"] = c.get("continued_after_restore", 0) + 1
+                if rest.current_batch_index - b0 != want:
+                    out["violations"].append({"msg": f"restored calibrator (precision {p}): calibrate(2) ran {rest.current_batch_index - b0} batches, the rounding rule gives {want}",
+                                              "witness": dict(wit, verbose=verbose)})
         except Exception as e:  # noqa: BLE001
             out["violations"].append({"msg": f"restore raised {type(e).__name__}: {str(e)[:160]}", "witness": wit})
     if "sample" not in out:
